@@ -102,6 +102,14 @@ Example ex_enum : supported (TEnum [[82;69;68]%N; [71]%N]) = true /\ has_type (T
 Proof. vm_compute. auto. Qed.
 Example ex_nested_list : supported (TList (TList (TOpt TStr))) = true /\ has_type (TList (TList (TOpt TStr))) (VList [VList []; VList [VNone; VStr [128512%N]]]) = true.
 Proof. vm_compute. auto. Qed.
+(* annotation spellings: Annotated[dict[str, int32], m] | None, Annotated[Enum, m], Optional[Annotated[Dataclass, m]] *)
+Example ex_spellings :
+  supported (TOpt (TAnn (TMap TStr (TInt true 32)))) = true /\
+  has_type (TOpt (TAnn (TMap TStr (TInt true 32)))) (VDict [(VStr [97%N], VInt 1)]) = true /\
+  echo ser_id deser_id true (TOpt (TAnn (TMap TStr (TInt true 32)))) (VDict [(VStr [97%N], VInt 1)]) = Accept (VDict [(VStr [97%N], VInt 1)]) /\
+  supported (TAnn (TEnum [[82;69;68]%N])) = true /\ supported (TOpt (TAnn TData)) = true /\
+  echo ser_id deser_id true (TOpt (TAnn TData)) (VData [7%N]) = Accept (VData [7%N]).
+Proof. vm_compute. repeat split; reflexivity. Qed.
 Example ex_echo_runs : echo ser_id deser_id true (TOpt TData) (VData [1;2;3]%N) = Accept (VData [1;2;3]%N).
 Proof. vm_compute. reflexivity. Qed.
 (* no-silent-change: a tuple given for list[int] is accepted, is not lossy, and arrives as the list *)
